@@ -17,11 +17,24 @@ MANIFEST = {
     "technique": "Coq proof (position invariant, decode/encode round trip, finite level table) + exhaustive level-table correspondence + generated clean/injected/fuzzed inputs",
 }
 
-THEOREMS = ["C15_skip_text_advance", "C15_skip_text_app", "C15_position_decode", "C15_structural_levels", "C15_levels_in_range"]
+THEOREMS = ["C15_skip_text_advance", "C15_skip_text_app", "C15_position_decode", "C15_structural_levels", "C15_levels_in_range",
+            "C15_expression_failure_is_diagnosed_or_at_end", "C15_failed_binding_is_diagnosed"]
 
 
 def run(res):
     ok, what = proof_phase(res, "C15", THEOREMS)
+    # the parser model behind the no-silent-failure theorems: ASTs and, for single bindings, which diagnostics are raised
+    import valparse
+    rv = valparse.run(res.tier, res.seed, "C15")
+    res.notes["value_parser_cases"] = rv["n"]
+    for (c, i, m) in rv["mismatches"][:3]:
+        d = valparse.describe(c)
+        if d["context"] == "diag":
+            res.violation("binding {{%s: the parser raises [%s], the Coq model of the binding parser predicts %s" % (
+                d["source"][:200], i[:200], m), {"src": "<v>{{" + d["source"], "impl_diagnostics": i, "model": m})
+        else:
+            res.violation("the parser reads the %s value %r as %s, the Coq model says %s" % (d["context"], d["source"][:200], i[:300], m[:300]),
+                          dict(d, impl=i, model=m))
     found = 0
     # 1. level table (exhaustive)
     p = harness_run(["diag_levels"])
